@@ -52,6 +52,43 @@ Theorem C06_flush_before_dump_would_lose_results :
     count_eff is_dump tr = 0 /\ oc = OIOError.
 Proof. exact flush_first_loses_results. Qed.
 
+(* With -i N a RepeatedTimer thread dumps snapshots into the same outfile while the
+   program runs.  For ALL streams, outcomes, stdout states and ALL positions of the
+   periodic dumps: what the file holds in the end (the LAST write) is main's own
+   dump, nothing of the program follows it, and it carries the profiler state after
+   the whole executed stream - a periodic snapshot never stands in for it. *)
+Theorem C06_final_dump_with_periodic_dumps :
+  forall (stream : list pev) (kd : kind) (reg : Z -> bool) (out : ostate) (ticks : list nat)
+         (ctx : bool) (outfile : string),
+    let '(tr, oc, st) := kern_run_ticks stream kd reg out ticks ctx outfile in
+    last_dump tr = Some (outfile, prof_run reg pst0 stream)
+    /\ program_events tr = stream
+    /\ (exists A rest, tr = A ++ FDump outfile (prof_run reg pst0 stream) :: rest
+                       /\ nodump rest = true /\ existsb is_prog rest = false)
+    /\ oc = main_outcome kd out
+    /\ st = prof_run reg pst0 stream.
+Proof. exact final_dump_with_periodic_dumps. Qed.
+
+(* The profiler is only switched on inside the windows that the wrappers of the
+   decorated functions open around every activation segment (a call, every
+   resumption of a generator, and the resumption that delivers close() / throw()
+   when a loop over it is abandoned by the terminating program).  For every
+   well-nested stream the windowed profiler records exactly what the always-on
+   profiler of C06_content records; a segment executed outside a window is lost. *)
+Theorem C06_wrapper_windows_transparent :
+  forall (reg : Z -> bool) (evs : list pev),
+    wf evs = true ->
+    snd (wprof_run reg (0%nat, pst0) (wrap reg evs)) = prof_run reg pst0 evs.
+Proof. exact windows_transparent. Qed.
+
+Theorem C06_unwindowed_segment_would_be_lost :
+  let ws := [WEnable; WE (PCall 0); WE (PLine 0 2); WE (PRet 0); WDisable;
+             WE (PCall 0); WE (PLine 0 5); WE (PRet 0)] in
+  p_hits (snd (wprof_run (fun _ => true) (0%nat, pst0) ws)) 0 5 = 0
+  /\ p_hits (snd (wprof_run (fun _ => true) (0%nat, pst0)
+                    (wrap (fun _ => true) [PCall 0; PLine 0 2; PRet 0; PCall 0; PLine 0 5; PRet 0]))) 0 5 = 1.
+Proof. exact unwindowed_segment_is_lost. Qed.
+
 (* The content of that snapshot: for every well-nested full run `prog`, EVERY
    termination point k and kind, the state after the executed events (the first k
    events, then the unwinding of every live activation) holds exactly the counts
